@@ -155,6 +155,8 @@ type Client struct {
 	pendingCmds  []command
 	contReqs     []continuationRequest
 	closed       bool
+	writeErr     error // first error encountered while sending a command
+	closedErr    error // set once the connection is closed and pending commands have been completed
 }
 
 // New creates a new IMAP client.
@@ -393,7 +395,12 @@ func (c *Client) beginCommand(name string, cmd command) *commandEncoder {
 		tag:  tag,
 		done: make(chan error, 1),
 	}
-	c.pendingCmds = append(c.pendingCmds, cmd)
+	// Once the reader goroutine has stopped, nobody would complete the
+	// command: fail it right away (see below)
+	closedErr := c.closedErr
+	if closedErr == nil {
+		c.pendingCmds = append(c.pendingCmds, cmd)
+	}
 	quotedUTF8 := c.caps.Has(imap.CapIMAP4rev2) || c.enabled.Has(imap.CapUTF8Accept)
 	literalMinus := c.caps.Has(imap.CapLiteralMinus)
 	literalPlus := c.caps.Has(imap.CapLiteralPlus)
@@ -413,6 +420,9 @@ func (c *Client) beginCommand(name string, cmd command) *commandEncoder {
 		Encoder: wireEnc,
 		client:  c,
 		cmd:     baseCmd,
+	}
+	if closedErr != nil {
+		c.completeCommand(cmd, closedErr)
 	}
 	enc.Atom(tag).SP().Atom(name)
 	return enc
@@ -574,11 +584,20 @@ func (c *Client) registerContReq(cmd command) *imapwire.ContinuationRequest {
 	return contReq
 }
 
+// closeWithError closes the connection and completes all pending commands.
+//
+// It must only be called from the reader goroutine, when it exits: commands
+// cannot be completed from another goroutine while the reader may still be
+// dispatching data to them.
 func (c *Client) closeWithError(err error) {
 	c.conn.Close()
 
 	c.mutex.Lock()
 	c.state = imap.ConnStateLogout
+	if c.writeErr != nil {
+		err = c.writeErr
+	}
+	c.closedErr = err
 	pendingCmds := c.pendingCmds
 	c.pendingCmds = nil
 	c.mutex.Unlock()
@@ -1119,9 +1138,16 @@ func (ce *commandEncoder) end() {
 // commandEncoder.end to release the lock.
 func (ce *commandEncoder) flush() {
 	if err := ce.Encoder.CRLF(); err != nil && ce.client.isPendingCmd(ce.cmd) {
-		// TODO: consider stashing the error in Client to return it in future
-		// calls
-		ce.client.closeWithError(err)
+		// Close the connection: the reader goroutine will notice it and
+		// complete all pending commands with this error. Commands must not be
+		// completed from here, the reader goroutine may be dispatching data
+		// to them at the same time.
+		ce.client.mutex.Lock()
+		if ce.client.writeErr == nil {
+			ce.client.writeErr = err
+		}
+		ce.client.mutex.Unlock()
+		ce.client.conn.Close()
 	}
 	// If the command isn't pending anymore, the server has already completed
 	// it (e.g. it has refused a synchronizing literal with a tagged NO): the
